@@ -162,7 +162,7 @@ func Load(dir string, minPkgs int, extra ...string) (*Prog, error) {
 			al := InferAliases(inv, BuildInventory(mod))
 			p.Aliases = al
 			setAliases(al)
-			res, err := inl.Normalize(fset, mod, p.All, al.Known)
+			res, err := inl.Normalize(fset, mod, p.All, al.Known, inv.KnownLits())
 			if err != nil {
 				return nil, broken("normalisation: %v", err)
 			}
